@@ -144,7 +144,20 @@ def gen_case(rng, tier, force=None):
             packets.insert(rng.randint(0, len(packets)), [])        # an empty packet (beg == end)
         stop = True if c < ncyc - 1 else rng.random() < 0.8           # the last cycle may be finalised by destroy
         cycles.append({"sets": sets, "packets": packets, "stop": stop})
-    return {"kind": kind, "cycles": cycles}
+    case = {"kind": kind, "cycles": cycles, "pre": []}
+    if rng.random() < 0.3:
+        # the first target already exists (left by an earlier acquisition of another process), with arbitrary contents
+        base = cycles[0]["sets"][-1]["uri"]
+        base = base[7:] if base.startswith("file://") else base
+        n = rng.choice([0, 1, 15, 16, 100, 457, 3000, 40000])
+        if kind == "tiff":
+            case["pre"].append({"path": base, "data": hx(rng.randbytes(n))})
+        else:
+            if rng.random() < 0.8:
+                case["pre"].append({"path": base + "/metadata.json", "data": hx(rng.choice([b'{"old":"' + b"x" * n + b'"}', rng.randbytes(n)]))})
+            if rng.random() < 0.5:
+                case["pre"].append({"path": base + "/data.tif", "data": hx(rng.randbytes(n))})
+    return case
 
 
 def enc_md(b):
@@ -182,6 +195,8 @@ def case_text(case, cid, d, fixes=None):
     lines = ["case %s" % cid, "dev %s" % case["kind"]]
     if fixes is not None:
         lines.append("fix %d %d %d" % fixes)
+    for f in case.get("pre", []):
+        lines.append("file %s %s" % (hx(f["path"].replace("$D", d).encode()), f["data"] or "-"))
     for k, cyc in enumerate(case["cycles"]):
         for s in cyc["sets"]:
             md = s["md"]
@@ -228,9 +243,14 @@ def run_impl(impl, text, timeout=900):
     return rc, o.split("\n"), e
 
 
-def prepare_dir(d):
+def prepare_dir(d, case=None):
     shutil.rmtree(d, ignore_errors=True)
     os.makedirs(os.path.join(d, "snaps"))
+    for f in (case or {}).get("pre", []):
+        p = f["path"].replace("$D", d)
+        os.makedirs(os.path.dirname(p), exist_ok=True)
+        with open(p, "wb") as fh:
+            fh.write(binascii.unhexlify(f["data"]))
 
 
 def build(ctx):
@@ -307,13 +327,13 @@ def oracle_case(case, d, ilines):
             content = impl_file_for(case, k, cyc, d, path)
             if role == "tif":
                 if content is None:
-                    out.append((case["kind"] + ":no-file", "cycle %d: %s was not written" % (k, os.path.basename(path)), k))
+                    out.append(("no-file", "cycle %d: %s was not written" % (k, os.path.basename(path)), k))
                     continue
                 for key, msg in tiffparse.check_tiff(content, frames, md, case["kind"]):
-                    out.append((case["kind"] + ":" + key, "cycle %d, %s: %s" % (k, os.path.basename(path), msg), k))
+                    out.append((key, "cycle %d, %s: %s" % (k, os.path.basename(path), msg), k))
             else:
                 for key, msg in tiffparse.check_metadata_json(content, md):
-                    out.append((case["kind"] + ":" + key, "cycle %d: %s" % (k, msg), k))
+                    out.append((key, "cycle %d: %s" % (k, msg), k))
     return out
 
 
@@ -367,7 +387,7 @@ def run_cases(ctx, orac, impl, cases, tag):
         texts = {}
         for cid, case in shard:
             d = os.path.join(root, str(cid))
-            prepare_dir(d)
+            prepare_dir(d, case)
             texts[cid] = case_text(case, cid, d)
         rcm, mo, em = run_model(orac, [l for cid, _ in shard for l in texts[cid]])
         msplit = split_output(mo)
@@ -395,7 +415,7 @@ def run_cases(ctx, orac, impl, cases, tag):
 
 
 def run_single(impl, case, d):
-    prepare_dir(d)
+    prepare_dir(d, case)
     rc, io, e = run_impl(impl, case_text(case, 0, d), timeout=120)
     lines = split_output(io).get("0", [])
     return rc, lines, e
@@ -405,6 +425,15 @@ def run_single(impl, case, d):
 def simplify_candidates(case):
     """smaller variants of a case, most aggressive first"""
     n = len(case["cycles"])
+    for i in range(len(case.get("pre", []))):
+        c = copy.deepcopy(case)
+        del c["pre"][i]
+        yield c
+    for i, f in enumerate(case.get("pre", [])):
+        if len(f["data"]) > 64 and not f["data"].startswith(hx(b'{"old":"')):
+            c = copy.deepcopy(case)
+            c["pre"][i]["data"] = hx(b'{"old":"' + b"x" * 20 + b'"}')
+            yield c
     for i in range(n):
         if n > 1:
             c = copy.deepcopy(case)
@@ -502,7 +531,7 @@ def replay_of(ctx, impl, case, key):
 # ----------------------------------------------------------------------------- folding results
 def describe(case):
     cyc = case["cycles"]
-    return {"kind": case["kind"], "cycles": [{"sets": [{"uri": s["uri"], "md": (dec_md(s["md"]) or b"")[:40].decode("latin1") if s["md"] is not None else None,
+    return {"kind": case["kind"], "preexisting": [(f["path"], len(f["data"]) // 2) for f in case.get("pre", [])], "cycles": [{"sets": [{"uri": s["uri"], "md": (dec_md(s["md"]) or b"")[:40].decode("latin1") if s["md"] is not None else None,
                                                          "scale": [s["sx"], s["sy"]]} for s in c["sets"]],
                                               "packets": [["%dx%d %s +%dB id=%d" % (f["w"], f["h"], TYPE_NAME[f["type"]], len(f["data"]) // 2, f["fid"]) for f in p]
                                                           for p in c["packets"]], "stop": c["stop"]} for c in cyc]}
@@ -517,6 +546,7 @@ def fold(ctx, impl, orac, cases, results, origin):
         ctx.case(sig, nontrivial=nontrivial)
         ctx.count("kind:" + case["kind"])
         ctx.count("cycles:%d" % len(nfr))
+        ctx.count("target-preexists:%s" % ("yes" if case.get("pre") else "no"))
         for c in case["cycles"]:
             n = sum(len(p) for p in c["packets"])
             ctx.count("frames:" + ("0" if n == 0 else "1" if n == 1 else "2-4" if n <= 4 else "5-12"))
